@@ -78,6 +78,7 @@ func cfgARP() *fedlab.Config {
 			fd("topProducts", listOf(named("Product"))),
 			fd("product", named("Product"), arg("upc", nonNull(named("ID")))),
 			fd("latestReview", named("Review")),
+			fd("media", listOf(named("Media"))),
 			fd("echo", named("String"), arg("o", in), arg("l", listOf(named("Int"))), arg("e", named("Color")),
 				argd("s", named("String"), vstr("d")), arg("f", named("Upload"))),
 		}},
@@ -95,6 +96,11 @@ func cfgARP() *fedlab.Config {
 			fd("reviews", listOf(named("Review"))),
 			fd("fmt", named("String"), arg("o", in), arg("n", named("Int")), arg("tags", listOf(named("String")))),
 		}},
+		{Kind: fedlab.KInterface, Name: "Media", Fields: []*FieldDef{id(), fd("title", named("String"))}},
+		{Kind: fedlab.KObject, Name: "Book", Implements: []string{"Media"}, Fields: []*FieldDef{
+			id(), fd("title", named("String")), fd("author", named("User")), fd("pages", named("Int"))}},
+		{Kind: fedlab.KObject, Name: "Movie", Implements: []string{"Media"}, Fields: []*FieldDef{
+			id(), fd("title", named("String")), fd("author", named("User")), fd("minutes", named("Int"))}},
 		{Kind: fedlab.KInput, Name: "In", Inputs: []*InputValue{
 			{Name: "k", Type: named("String")}, {Name: "n", Type: named("Int"), Default: vint(3)},
 			{Name: "l", Type: listOf(named("String"))},
@@ -114,8 +120,12 @@ func cfgARP() *fedlab.Config {
 			{Name: "Product", Keys: []string{"upc"}, Fields: sf("upc", "reviews")},
 		}},
 		{Name: "products", Types: []*SubType{
-			{Name: "Query", Fields: sf("topProducts", "product")},
+			{Name: "Query", Fields: sf("topProducts", "product", "media")},
 			{Name: "Product", Keys: []string{"upc"}, Fields: sf("upc", "title", "price", "fmt")},
+			{Name: "Media", Fields: sf("id", "title")},
+			{Name: "Book", Keys: []string{"id"}, Fields: sf("id", "title", "author", "pages")},
+			{Name: "Movie", Keys: []string{"id"}, Fields: sf("id", "title", "author", "minutes")},
+			{Name: "User", Keys: []string{"id"}, Fields: sf("id")},
 		}},
 	}}
 }
@@ -145,8 +155,27 @@ func uniARP(r *common.Rand) *fedlab.Universe {
 	u.Ents = append(u.Ents, &Entity{Type: "Query", Key: "", Fields: []FV{
 		{"me", ref("User", uk(r.Pick(nu)))}, {"users", lst(users...)}, {"user", lookup("User", "id")},
 		{"topProducts", lst(prods...)}, {"product", lookup("Product", "upc")},
-		{"latestReview", ref("Review", rk(r.Pick(nr)))}, {"echo", echo()},
+		{"latestReview", ref("Review", rk(r.Pick(nr)))}, {"echo", echo()}, {"media", nil},
 	}})
+	var media []*FVal
+	for i, nm := 0, 2+r.Pick(4); i < nm; i++ {
+		if r.Chance(1, 2) {
+			k := fmt.Sprintf("bk%d", i)
+			media = append(media, ref("Book", k))
+			u.Ents = append(u.Ents, &Entity{Type: "Book", Key: k, Fields: []FV{
+				{"id", str(k)}, {"title", maybeNull(str("book" + k))}, {"author", ref("User", uk(r.Pick(nu)))}, {"pages", num(100 + i)}}})
+		} else {
+			k := fmt.Sprintf("mv%d", i)
+			media = append(media, ref("Movie", k))
+			u.Ents = append(u.Ents, &Entity{Type: "Movie", Key: k, Fields: []FV{
+				{"id", str(k)}, {"title", maybeNull(str("movie" + k))}, {"author", ref("User", uk(r.Pick(nu)))}, {"minutes", num(90 + i)}}})
+		}
+	}
+	for i := range u.Ents[0].Fields {
+		if u.Ents[0].Fields[i].Name == "media" {
+			u.Ents[0].Fields[i].Val = lst(media...)
+		}
+	}
 	revOf := map[string][]*FVal{}
 	for i := 0; i < nr; i++ {
 		a, p := uk(r.Pick(nu)), pk(r.Pick(np))
